@@ -76,7 +76,7 @@ M = [
  ("C10-2b", ["C10"], [(AL, "\t\twrite(k)\n\t\twrite(v)\n", "\t\t_ = k\n\t\twrite(v)\n")], "key hashes values only"),
  ("C10-2c", ["C10"], [(AL, "\t\tbinary.LittleEndian.PutUint64(size[:], uint64(len(s)))\n\t\t_, _ = h.Write(size[:])\n", "\t\tbinary.LittleEndian.PutUint64(size[:], uint64(len(s)))\n")], "key without separators again"),
  ("C10-3", ["C10"], [(LM, "\t\t\tkey := s.Set.Key()\n\t\t\tser, ok := matrixSeries[key]", "\t\t\tkey := s.Set.Key()\n\t\t\tif api := s.Set.AsLokiAPI(); len(api) > 0 {\n\t\t\t\tkey = uint64(len(api))\n\t\t\t}\n\t\t\tser, ok := matrixSeries[key]")], "matrix series keyed by label count"),
- ("C10-4", ["C10"], [(AL, "by:      buildSet(maps.Clone(a.by), labels...),", "by:      buildSet(a.by, labels...),"), (AL, "without: buildSet(maps.Clone(a.without), labels...),", "without: buildSet(a.without, labels...),")], "By/Without share the mutable grouping set (reachable through without-over-without on an unwrap range)"),
+ ("C10-4", ["C10"], [(AL, "by:      buildSet(maps.Clone(a.by), labels...),", "by:      buildSet(a.by, labels...),"), (AL, "without: buildSet(maps.Clone(a.without), labels...),", "without: buildSet(func() map[string]struct{} { _ = maps.Clone[map[string]struct{}]; return a.without }(), labels...),")], "By/Without share the mutable grouping set (reachable through without-over-without on an unwrap range)"),
  ("C14-1", ["C14"], [(D, "\t\t\tif rerr != nil {\n\t\t\t\tfor _, iter := range iters {", "\t\t\tif rerr != nil && false {\n\t\t\t\tfor _, iter := range iters {")], "SelectLogs cleanup removed"),
  ("C14-2", ["C14"], [(ES, "\tdefer func() {\n\t\t_ = iter.Close()\n\t}()\n\treturn groupEntries(iter)", "\treturn groupEntries(iter)")], "evalLogExpr never closes"),
  ("C14-3", ["C14"], [(EN, "\t\tdefer func() {\n\t\t\t_ = iter.Close()\n\t\t}()\n", "")], "metric path never closes again"),
